@@ -69,8 +69,9 @@ class LpPacketValue(TlvModel):
     next_hop_face_id = UintField(LpTypeNumber.NEXT_HOP_FACE_ID)
     cache_policy = ModelField(LpTypeNumber.CACHE_POLICY, CachePolicy)
     congestion_mark = UintField(LpTypeNumber.CONGESTION_MARK)
-    tx_sequence = BytesField(LpTypeNumber.TX_SEQUENCE)
+    # NDNLPv2 header fields appear in order of increasing TLV-TYPE: Ack (0x0344) precedes TxSequence (0x0348)
     ack = BytesField(LpTypeNumber.ACK)
+    tx_sequence = BytesField(LpTypeNumber.TX_SEQUENCE)
     non_discovery = BoolField(LpTypeNumber.NON_DISCOVERY)
     prefix_announcement = BytesField(LpTypeNumber.PREFIX_ANNOUNCEMENT)
 
